@@ -491,7 +491,11 @@ impl InterfaceInner {
                         .fill(ip_repr.src_addr.into(), lladdr, self.now);
                 }
 
-                if self.has_solicited_node(ip_repr.dst_addr) && self.has_ip_addr(target_addr) {
+                // A solicitation is addressed either to the solicited-node multicast
+                // address of the target or, when probing reachability, to the target itself.
+                if (self.has_solicited_node(ip_repr.dst_addr) || self.has_ip_addr(ip_repr.dst_addr))
+                    && self.has_ip_addr(target_addr)
+                {
                     let advert = Icmpv6Repr::Ndisc(NdiscRepr::NeighborAdvert {
                         flags: NdiscNeighborFlags::SOLICITED,
                         target_addr,
